@@ -24,6 +24,9 @@ SRC = vlib.BASE_SRC + [
 DEFS = vlib.BASE_DEFS + ["HAVE_EPOLL=1", "HAVE_SELECT=1"]
 TLC_ENV = {"JAVA_TOOL_OPTIONS": "-Xss256m"}      # the reference name decoder recurses once per label / pointer
 QNAME = [1, 97, 2, 98, 99, 0]                     # "a.bc" as asked by every lookup
+# a decoder that never terminates is cut after 3 s of CPU time in one step (Fault "hang"); its memory growth is capped meanwhile
+RUN_ENV = {"VERIF_STEP_CPU_S": "3",
+           "ASAN_OPTIONS": vlib.SAN_ENV["ASAN_OPTIONS"] + ":hard_rss_limit_mb=3000:max_allocation_size_mb=1024"}
 PER_EXEC = 12                                    # lookups (one datagram each) per execution in the datagram runs
 
 
@@ -37,7 +40,7 @@ def random_datagrams(rnd, pool_ok, n):
     out = []
     q = QNAME + [0, 1, 0, 1]
     for i in range(n):
-        kind = i % 8
+        kind = i % 9
         if kind == 0:                                     # random bytes
             d = [rnd.randrange(256) for _ in range(rnd.choice([0, 1, 2, 3, 4, 5, 11, 12, 13, 20, 40, 80]))]
             tag = "rnd-bytes"
@@ -79,6 +82,8 @@ def random_datagrams(rnd, pool_ok, n):
             own = base + 12 + 2 * (m - 1)
             d += [192 | (own >> 8), own & 255, 0, 1, 0, 1, 0, 0, 0, 7, 0, 4, 10, 9, 8, m & 255]
             tag = "ptr-chain-%d" % m
+        elif kind == 7:                                   # a name that loops THROUGH ordinary labels (1-3 labels, then a pointer back)
+            d, tag = label_cycle(rnd, q)
         else:                                             # long names / many labels / big datagrams
             labels = []
             for _ in range(rnd.choice([1, 3, 10, 40])):
@@ -88,6 +93,49 @@ def random_datagrams(rnd, pool_ok, n):
             tag = "long-name"
         out.append({"tag": tag, "d": d[:4096]})
     return out
+
+
+def label_cycle(rnd, q):
+    """Reply whose question / owner / CNAME name (or a name reached through a pointer) runs through 1-3 ordinary labels and then
+    points back into them: no chain of CONSECUTIVE pointers is ever long, yet the name never ends."""
+    def cyc(off):
+        labs, n = [], rnd.randrange(1, 4)
+        starts = []
+        for _ in range(n):
+            ln = rnd.choice([1, 1, 2, 3, 7])
+            starts.append(off + len(labs))
+            labs += [ln] + [rnd.choice(b"abcxyz019-") for _ in range(ln)]
+        style = rnd.randrange(3)
+        if style == 0:
+            tgt = [starts[0]]                             # back to the head of the loop
+        elif style == 1:
+            tgt = [rnd.choice(starts)]                    # re-enter at any label of the loop
+        else:                                             # through a second pointer: label(s), pointer -> pointer -> head
+            tgt = [off + len(labs) + 2, starts[0]]
+        out = list(labs)
+        for t in tgt:
+            out += [192 | (t >> 8), t & 255]
+        return out
+    base = 12 + len(q)
+    a_fix = [0, 1, 0, 1, 0, 0, 0, 7, 0, 4, 10, 9, 8, 7]
+    where = rnd.randrange(6)
+    if where == 0:                                        # question name
+        d = hdr(0x8180, 1, 1) + cyc(12) + [0, 1, 0, 1] + [192, 12] + a_fix
+    elif where == 1:                                      # owner name of the first answer
+        d = hdr(0x8180, 1, 1) + q + cyc(base) + a_fix
+    elif where == 2:                                      # CNAME rdata
+        c = cyc(base + 12)
+        d = hdr(0x8180, 1, 1) + q + [192, 12, 0, 5, 0, 1, 0, 0, 0, 9, 0, len(c)] + c
+    elif where == 3:                                      # inside skipped TXT rdata, entered through a later owner pointer
+        c = cyc(base + 12)
+        own = [192, base + 12] if rnd.randrange(2) else [1, 118, 192, base + 12]
+        d = hdr(0x8180, 1, 2) + q + [192, 12, 0, 16, 0, 1, 0, 0, 0, 9, 0, len(c)] + c + own + a_fix
+    elif where == 4:                                      # after good answers
+        pre = [192, 12] + a_fix + [192, 12, 0, 5, 0, 1, 0, 0, 0, 60, 0, 6, 1, 100, 2, 98, 99, 0]
+        d = hdr(0x8180, 1, 3) + q + pre + cyc(base + len(pre)) + a_fix
+    else:                                                 # in the additional section / with an error rcode
+        d = hdr(rnd.choice([0x8180, 0x8183, 0x8182]), 1, 0, 0, 1) + q + cyc(base) + a_fix
+    return d, "label-cycle"
 
 
 def datagram_scripts(rnd, dgrams):
@@ -168,7 +216,10 @@ def run_scripts(ctx, exe, scripts, tag, what, replayed=True, wrapper=None):
         cmd, args = wrapper[0], wrapper[1:] + [exe, "script", sp, tr]
     else:
         cmd, args = exe, ["script", sp, tr]
-    ok, n = vlib.record_and_validate(ctx, cmd, args, tr, "Dns", "Trace_Dns.tla", "Trace_Dns.cfg", what, tlc_env=TLC_ENV, timeout=1500)
+    env = dict(RUN_ENV)
+    if wrapper:                                      # valgrind: the first steps include the translation of the code; no rlimit for valgrind itself
+        env.update({"VERIF_STEP_CPU_S": "30", "VERIF_NO_RLIMIT": "1"})
+    ok, n = vlib.record_and_validate(ctx, cmd, args, tr, "Dns", "Trace_Dns.tla", "Trace_Dns.cfg", what, tlc_env=TLC_ENV, timeout=1500, env=env)
     if ok and replayed:
         ctx.traces_ok -= n
         ctx.replays_ok += n
@@ -204,6 +255,7 @@ def models_(ctx):
     ctx.tlc_mc("Dns", "MC_DnsParse.tla", "MC_DnsParse_cov.cfg", required_actions=["Header", "Sect", "NameStep", "NameEnd", "QFix", "AFix", "RData"], env=TLC_ENV)
     ctx.tlc_mc("Dns", "MC_DnsParse.tla", "MC_DnsParse_asfound_depth.cfg", expect="BoundedDepth", coverage=False, env=TLC_ENV)
     ctx.tlc_mc("Dns", "MC_DnsParse.tla", "MC_DnsParse_asfound_uninit.cfg", expect="NoUninit", coverage=False, env=TLC_ENV)
+    ctx.tlc_mc("Dns", "MC_DnsParse.tla", "MC_DnsParse_resetonlabel.cfg", expect="BoundedDepth", coverage=False, env=TLC_ENV)
     if not q:
         ctx.tlc_mc("Dns", "MC_DnsParse.tla", "MC_DnsParse_asfound_safe.cfg", expect="Safe", coverage=False, env=TLC_ENV)
         ctx.tlc_mc("Dns", "MC_DnsLookup.tla", "MC_DnsLookup_thorough.cfg", coverage=False, timeout=2400)
@@ -230,7 +282,7 @@ def run(ctx):
         models(ctx)
 
     # 1. datagrams: TLC-generated families + seeded random ones, each answered to its own lookup
-    gens = ctx.tlc_gen("Dns", "Gen_DnsReply.tla", "Gen_DnsReply_quick.cfg" if q else "Gen_DnsReply_thorough.cfg", timeout=1200, env=TLC_ENV)
+    gens = ctx.tlc_gen("Dns", "Gen_DnsReply.tla", "Gen_DnsReply_quick.cfg" if q else "Gen_DnsReply_thorough.cfg", timeout=1200, env=TLC_ENV, workers=2)
     pools = {}
     for g in gens:
         pools.setdefault(g["cls"], []).append(g)
@@ -267,7 +319,7 @@ def run(ctx):
         plain = vlib.build("c15_dns", SRC, ["c15_dns/driver.cpp"], flavour="plain", defines=DEFS)
         sub = gens + rd
         if q:
-            sub = [g for g in gens if g["tag"] in ("trunc", "good", "an+2", "qd=2", "ptr-out", "ptr-end", "rdlen+1")][::2] + rd[:320]
+            sub = [g for g in gens if g["tag"] in ("trunc", "good", "an+2", "qd=2", "ptr-out", "ptr-end", "rdlen+1", "cyc-owner", "cyc-cname", "ptr-label-loop")][::2] + rd[:320]
         vg = ["valgrind", "-q", "--error-exitcode=97", "--undef-value-errors=yes", "--track-origins=no", "--leak-check=no"]
         run_scripts(ctx, plain, datagram_scripts(rnd, sub) + hist[:20 if q else 300], "memcheck",
                     "valgrind memcheck: %d datagrams + histories" % len(sub), replayed=False, wrapper=vg)
